@@ -101,7 +101,7 @@ def main():
         env = dict(os.environ, VF_REPO=root, VF_CACHE=cache)
         try:
             p = subprocess.run(['python3', '/verif/tools/mut_smoke.py', fam, '1'], stdout=subprocess.PIPE, stderr=subprocess.PIPE, text=True,
-                               env=env, timeout=900)
+                               env=env, timeout=150)
             verdict = (p.stdout.strip().split('\n') or ['?'])[-1][:400] or ('ERROR ' + p.stderr[-200:])
         except subprocess.TimeoutExpired:
             verdict = 'KILLED timeout'
